@@ -99,7 +99,9 @@ func viol(oracle, class, detail string) *core.Violation {
 
 func faultMsg(k int, kind string, seed uint64) string {
 	tok := fmt.Sprintf("simfault-%d-%x", k, core.Derive(seed, "tok", uint64(k))&0xffffff)
-	switch core.Derive(seed, "msgstyle", uint64(k)) % 4 {
+	switch core.Derive(seed, "msgstyle", uint64(k)) % 5 {
+	case 4:
+		return store.WrapsInterpreterError + tok
 	case 0:
 		return "ledger unavailable: " + tok
 	case 1:
